@@ -50,12 +50,14 @@ def in_domain(acc, func, state, cfg):
 
 # ------------------------------------------------------------------------------------ C04
 def check_defn(acc, task, func, state, cfg):
+    acc.pause()                    # the watchdog times the library, not the reference model
     try:
         exp = func.expected(state, cfg)
     except Undefined as u:
         acc.counters["undefined_or_near_threshold_skipped"] += 1
         acc.counters["skip:%s:%s" % (func.name, str(u)[:40])] += 1
         return
+    acc.tick(acc.cur)
     acc.transitions += 1
     acc.conform += 1
     try:
@@ -167,7 +169,9 @@ def shard_range(arg):
 
 # ------------------------------------------------------------------------------------ C02
 def check_perfect(acc, task, func, x, cfg):
+    acc.pause()
     want = func.optimum(x, cfg)
+    acc.tick(acc.cur)
     if all(v is None for v in want.values()):
         acc.counters["degenerate_skipped:%s" % func.name] += 1
         return
